@@ -310,7 +310,10 @@ vars == <<st>>
 (***************************************************************************)
 (* Declarative statements of the properties.                               *)
 (***************************************************************************)
-HasAuth(b) == b.form = "pkt" /\ \E i \in 1..Len(b.items) : b.items[i].k = "auth"
+\* Reading taken (the weaker one): a datagram is an NTS request when the parser meets an authenticator field.
+\* Bytes that look like one but lie in the last 24 octets of a v4 datagram are a MAC by RFC 7822 (and the code),
+\* so such a datagram is a plain request with an ignored MAC.
+NtsSeen(b) == b.form = "pkt" /\ (Parse(b).res = "dec" \/ (Parse(b).res = "ok" /\ Parse(b).ck # 0))
 \* an authenticator that verifies: the request is a genuine NTS request
 Authentic(b) == b.form = "pkt" /\ Parse(b).res = "ok" /\ Parse(b).ck # 0
 AuthFails(b) == b.form = "pkt" /\ Parse(b).res = "dec"
@@ -330,9 +333,9 @@ C15_Step(s, a) ==
     /\ (~ad.den /\ ~ad.alw) => /\ o.bresp \in {"ignore", "deny"}
                                /\ (c.allowAct = "ignore" => o.bresp = "ignore")
     /\ (Malformed(b) \/ NonClient(b) \/ (b.form = "pkt" /\ b.ver \notin c.accepted)) => o.bresp = "ignore"
-    /\ (c.requireNts # "none" /\ ~HasAuth(b)) => o.bresp # "time"
+    /\ (c.requireNts # "none" /\ ~Authentic(b)) => o.bresp # "time"
     /\ (/\ PassesLists(a) /\ ~Limited(s, a) /\ ~Malformed(b) /\ ~NonClient(b) /\ b.ver \in c.accepted
-        /\ (IF HasAuth(b) THEN Authentic(b) ELSE c.requireNts = "none")) => o.bresp = "time"
+        /\ (Authentic(b) \/ (~NtsSeen(b) /\ c.requireNts = "none"))) => o.bresp = "time"
 
 \* C16: what is sent (request-sized buffer, as the daemon passes) is never longer than the request
 C16_Step(s, a) == a.t = "Handle" => LET o == Out(s, a) IN o.resp # "ignore" => o.len <= o.reqlen
@@ -371,7 +374,7 @@ CookieFields(b) ==
 C19_Step(s, a) ==
   a.t = "Handle" =>
     LET o == Out(s, a) b == a.body IN
-    /\ (HasAuth(b) /\ ~Authentic(b)) => o.bresp # "time"
+    /\ AuthFails(b) => o.bresp # "time"
     /\ (Authentic(b) /\ o.bresp = "time") => /\ o.sealed
                                              /\ o.nc <= Min(8, CookieFields(b))
 
@@ -393,7 +396,7 @@ C21_Step(s, a) ==
   a.t = "Handle" =>
     LET o == Out(s, a) b == a.body IN
     /\ o.stat.resp = StatKind(o.resp) /\ o.bstat.resp = StatKind(o.bresp)
-    /\ (o.stat.nts \/ o.bstat.nts) => HasAuth(b)
+    /\ (o.stat.nts \/ o.bstat.nts) => NtsSeen(b)
     /\ (Authentic(b) /\ o.bresp # "ignore") => o.bstat.nts
     /\ (Authentic(b) /\ o.resp # "ignore") => o.stat.nts
 
